@@ -90,14 +90,13 @@ Inductive wfl : list load -> Prop :=
 
 Lemma wfl_wf_loads : forall ls, wfl ls -> wf_loads ls.
 Proof.
-  intros ls H. split; [|split].
-  - destruct H; discriminate.
+  intros ls H. split.
   - induction H as [l H1 H2 | l r H1 H2 H3 IH]; constructor; try assumption. constructor.
-  - induction H as [l H1 H2 | l r H1 H2 H3 IH]; intros i Hi.
-    + cbn [length] in Hi. assert (i = 0) by lia. subst i. cbn [nth length]. exact H1.
+  - induction H as [l H1 H2 | l r H1 H2 H3 IH]; intros i Hi Hf.
+    + cbn [length] in *. lia.
     + destruct i as [|i].
-      * cbn [nth length]. rewrite H1. destruct r; [inversion H3|]. reflexivity.
-      * cbn [nth length] in *. rewrite IH by lia. reflexivity.
+      * cbn [nth] in Hf. congruence.
+      * cbn [nth length] in *. rewrite <- (IH i) by (try lia; exact Hf). reflexivity.
 Qed.
 
 Lemma wfl_total : forall ls, wfl ls -> Forall (fun l => 1 <= ld_total l) ls.
@@ -150,6 +149,52 @@ Proof.
     + unfold wf_load, blocks16_of. cbn [ld_total ld_data]. split; [exact Hc|].
       apply (chunks16_of_mul c A HA HbA).
     + apply (IH (t - c)); try assumption; try lia.
+Qed.
+
+(* the decryptor's loads of ANY body (empty, ragged, last byte not a pad length ...) are well formed:
+   the concurrency theorems C03 / C04 / C14 apply to the decryption of every file *)
+Lemma loads_final_last : forall ld fuel rest i,
+  i < length (loads ld fuel rest) ->
+  ld_final (nth i (loads ld fuel rest) {| ld_data := []; ld_total := 0; ld_final := false |}) = true ->
+  S i = length (loads ld fuel rest).
+Proof.
+  intros ld. induction fuel as [|f IH]; intros rest i Hi Hf; cbn [loads] in *; [cbn [length] in Hi; lia|].
+  destruct (ld rest) as [l rest']. destruct (ld_final l) eqn:Ef.
+  - destruct (ld_total l =? 0); cbn [length] in *; lia.
+  - destruct i as [|i]; cbn [nth length] in *; [congruence|].
+    rewrite <- (IH rest' i) by (try lia; exact Hf). reflexivity.
+Qed.
+
+Lemma loads_dec_wf_load : forall c, 1 <= c -> forall fuel rest, bytes rest ->
+  Forall wf_load (loads (load_dec c) fuel rest).
+Proof.
+  intros c Hc. induction fuel as [|f IH]; intros rest Hb; [constructor|].
+  cbn [loads]. unfold load_dec at 1. cbv zeta. cbn [ld_final ld_total].
+  set (got := firstn (sum c) rest). set (n := length got).
+  assert (Hbg : bytes got) by (apply bytes_firstn_skipn; exact Hb).
+  assert (Hwl : n / 16 <> 0 ->
+                wf_load {| ld_data := firstn (16 * (n / 16)) got; ld_total := n / 16;
+                           ld_final := (n <? sum c) || match skipn (sum c) rest with [] => true | _ => false end |}).
+  { intro Hn0. unfold wf_load, blocks16_of. cbn [ld_total ld_data]. split; [lia|].
+    apply (chunks16_of_mul (n / 16) (firstn (16 * (n / 16)) got)).
+    - rewrite firstn_length. fold n. pose proof (Nat.mul_div_le n 16). lia.
+    - apply bytes_firstn_skipn. exact Hbg. }
+  destruct ((n <? sum c) || match skipn (sum c) rest with [] => true | _ => false end) eqn:Hro.
+  - destruct (Nat.eqb_spec (n / 16) 0) as [E0|N0]; [constructor|].
+    constructor; [|constructor]. rewrite <- Hro. apply Hwl. exact N0.
+  - constructor.
+    + rewrite <- Hro. apply Hwl.
+      apply orb_false_iff in Hro. destruct Hro as [Hlt _]. apply Nat.ltb_ge in Hlt.
+      assert (Hn : n = sum c) by (unfold n, got in *; rewrite firstn_length in *; lia).
+      rewrite Hn, sum_eq. rewrite (Nat.mul_comm 16 c), Nat.div_mul by discriminate. lia.
+    + apply IH. apply bytes_firstn_skipn. exact Hb.
+Qed.
+
+Lemma wf_loads_dec : forall c B, 1 <= c -> bytes B -> wf_loads (loads_of c false B).
+Proof.
+  intros c B Hc Hb. unfold loads_of. split.
+  - apply loads_dec_wf_load; assumption.
+  - apply loads_final_last.
 Qed.
 
 (* ------------------------------------------------------------------------------------------ *)
@@ -244,6 +289,58 @@ Proof.
               G1 Hrun Hterm) as [O1 [_ O3]].
   split; [rewrite O1; exact G2 | exact O3].
 Qed.
+
+(* the same with the well-formedness condition of the concurrency theorems themselves *)
+Lemma every_schedule_wf : forall E D kind T c pad iv16 ls out,
+  1 <= T -> wf_loads ls ->
+  pipe_chunks E D kind T c pad (repeat iv16 T) 0 ls = Ok out ->
+  forall sched s,
+    PipeConc.run (list N) (runcry E D kind) (fun _ _ => []) c pad
+                 (init (list N) T (repeat iv16 T) ls) sched = Some s ->
+    terminal (list N) s = true ->
+    concat (output (list N) s) = out /\ crashed (list N) s = None.
+Proof.
+  intros E D kind T c pad iv16 ls out HT Hwf Hp sched s Hrun Hterm.
+  assert (Htot : Forall (fun l => 1 <= ld_total l) ls).
+  { destruct Hwf as [Hall _]. apply Forall_impl with (2 := Hall). intros l Hl. exact (proj1 Hl). }
+  destruct (glue E D kind T c pad HT ls (repeat iv16 T) 0 out (repeat_length _ _) Htot Hp) as [G1 G2].
+  destruct (C03_output_is_schedule_independent_proof (list N) (runcry E D kind) (fun _ _ => [])
+              c pad T (repeat iv16 T) ls sched s HT (repeat_length _ _) Hwf
+              G1 Hrun Hterm) as [O1 [_ O3]].
+  split; [rewrite O1; exact G2 | exact O3].
+Qed.
+
+(* decryption of ANY file of bytes that decrypts successfully (i.e. any accepted file, see
+   C11_decrypt_total): every terminating schedule of the buffer pipeline writes exactly the output of the
+   sequential reading, without undefined behaviour; the loads are well formed, so that deadlock freedom
+   and the step bound (C04) hold for them as well *)
+Lemma decrypt_under_every_schedule_proof : forall c hbuf T F key out,
+  1 <= c -> 1 <= T -> bytes F -> dec c hbuf T F key = Ok out ->
+  exists kd, create false (nth 8 F 0%N) = Some kd /\
+    let E := aes_enc_with (genall key) in
+    let D := aes_dec_with (genall key) in
+    let iv16 := firstn 16 (skipn 48 F) in
+    let ls := loads_of c false (skipn (text_mark T) F) in
+    wf_loads ls /\
+    forall sched s,
+      PipeConc.run (list N) (runcry E D kd) (fun _ _ => []) c false
+          (init (list N) T (repeat iv16 T) ls) sched = Some s ->
+      terminal (list N) s = true ->
+      concat (output (list N) s) = out /\ crashed (list N) s = None.
+Proof.
+  intros c hbuf T F key out Hc HT Hb Hd. unfold dec in Hd.
+  destruct (verify hbuf F key) as [code| | |]; try discriminate Hd.
+  destruct code as [|p]; [|discriminate Hd].
+  destruct (create false (nth 8 F 0%N)) as [kd|]; [|discriminate Hd].
+  exists kd. split; [reflexivity|]. cbv zeta.
+  assert (Hwf : wf_loads (loads_of c false (skipn (text_mark T) F))).
+  { apply wf_loads_dec; [exact Hc|]. apply bytes_firstn_skipn. exact Hb. }
+  split; [exact Hwf|].
+  apply (every_schedule_wf (aes_enc_with (genall key)) (aes_dec_with (genall key)) kd T c false
+           (firstn 16 (skipn 48 F)) _ out HT Hwf).
+  exact Hd.
+Qed.
+Print Assumptions decrypt_under_every_schedule_proof.
 
 Lemma C01_roundtrip_under_every_schedule_proof : forall c hbuf T P key seed cm hm,
   enc_params c hbuf T P key seed cm hm ->
